@@ -47,6 +47,11 @@ func patternToMatcher(root, pattern string) (matcher, error) {
 }
 
 func toRegexString(pattern string) string {
+	// Characters that mean something in a regular expression but not in a glob are matched literally
+	// (e.g. Outer$Inner.class, a(1).txt).
+	for _, c := range []string{"(", ")", "$", "|", "{", "}"} {
+		pattern = strings.ReplaceAll(pattern, c, "\\"+c)
+	}
 	pattern = "^" + pattern + "$"
 	pattern = strings.ReplaceAll(pattern, "+", "\\+")         // escape +
 	pattern = strings.ReplaceAll(pattern, ".", "\\.")         // escape .
